@@ -75,6 +75,8 @@ func corpus() [][]txPlan {
 		one(call(0, 15, put(1, 1), try(L(call(1, 7, put(1, 2), call(2, 3, put(1, 3)), throw())), L(put(2, 1)), nil))),
 		// nested handlers: the inner frame is in its catch block, the outer one is still a TRY
 		one(call(0, 15, try(L(try(L(throw()), L(call(1, 15, put(0, 6), notify(6), throw())), nil)), L(notify(7)), nil))),
+		// the same with both frames in ONE context (inline-compiled entry script)
+		one(try(L(try(L(throw()), L(call(1, 15, put(0, 6), notify(6), throw())), nil)), L(call(0, 15, notify(7))), nil)),
 		// finally: normal path, exceptional path with rethrow to an outer catch
 		one(call(0, 15, try(L(put(0, 1)), nil, L(put(1, 1))), try(L(try(L(put(2, 1), throw()), nil, L(put(3, 1), notify(1)))), L(notify(2)), nil))),
 		// exception lost inside a finally block: ENDFINALLY jumps to EndOffset -1 (FAULT)
